@@ -503,6 +503,7 @@ func pathOf(lc linking.LinkContext) string {
 type ReqRun struct {
 	Idx      int
 	Node     int // issuing node: NodeA or NodeB
+	PO       string // persistence option the request uses on the requestor ("" = the node's default store)
 	Q        *Query
 	ID       graphsync.RequestID
 	Prog     []graphsync.ResponseProgress
@@ -680,6 +681,17 @@ func NewSimB(w *World, loc, rem, locB []int, withB bool, nReq int, opts ...gsimp
 		if s.Nodes[node] == nil {
 			continue
 		}
+		s.Nodes[node].RegisterOutgoingRequestHook(func(p peer.ID, rd graphsync.RequestData, ha graphsync.OutgoingRequestHookActions) {
+			s.mu.Lock()
+			po := ""
+			if idx := s.reqIndex(rd.ID()); idx >= 0 {
+				po = s.Reqs[idx].PO
+			}
+			s.mu.Unlock()
+			if po != "" {
+				ha.UsePersistenceOption(po)
+			}
+		})
 		s.Nodes[node].RegisterIncomingBlockHook(func(p peer.ID, rd graphsync.ResponseData, bd graphsync.BlockData, ha graphsync.IncomingBlockHookActions) {
 			s.mu.Lock()
 			idx := s.reqIndex(rd.RequestID())
@@ -700,6 +712,17 @@ func NewSimB(w *World, loc, rem, locB []int, withB bool, nReq int, opts ...gsimp
 		})
 	}
 	return s
+}
+
+// AddAltStore registers a persistence option `name` on requestor node `node`: a separate block store
+// holding `blocks`.  Requests with ReqRun.PO = name load from / store into it (and automatically carry
+// the dedup-by-key extension `name`).
+func (s *Sim) AddAltStore(node int, name string, blocks []int) error {
+	st := &store{s: s, side: node, blocks: map[cid.Cid][]byte{}}
+	for _, i := range blocks {
+		st.blocks[s.W.D.Cids[i]] = s.W.D.Data[s.W.D.Cids[i]]
+	}
+	return s.Nodes[node].RegisterPersistenceOption(name, st.linkSystem())
 }
 
 // AddRequest registers a request slot (so that its ID is known to the log) without starting it.
